@@ -15,7 +15,7 @@ arithmetic (truncated subtraction for `saturating_sub`; plain `-` on usize is tr
 it safe is a separate site)."""
 import os, re
 
-REPO = '/repo'
+REPO = os.environ.get('VERIF_REPO', '/repo')
 ROOT = os.path.dirname(os.path.dirname(os.path.abspath(__file__)))
 GEN = os.path.join(ROOT, 'lean', 'GraphrsModel', 'Generated')
 
